@@ -20,6 +20,19 @@ class HasLoop(AnalysisError):
     pass
 
 
+def light_canon(test):
+    """(source, polarity of the true branch): `not x` and `a != b` / `a is not b` are recorded as x / a == b / a is b with the
+    polarity flipped, so that a condition and its negation are the same recorded test."""
+    pol = True
+    while isinstance(test, ast.UnaryOp) and isinstance(test.op, ast.Not):
+        test, pol = test.operand, not pol
+    if isinstance(test, ast.Compare) and len(test.ops) == 1 and isinstance(test.ops[0], (ast.NotEq, ast.IsNot)):
+        op = ast.Eq() if isinstance(test.ops[0], ast.NotEq) else ast.Is()
+        test = ast.Compare(left=test.left, ops=[op], comparators=test.comparators)
+        pol = not pol
+    return norm_src(test), pol
+
+
 class PathSum:
     def __init__(self):
         self.conds = []       # (src, polarity)
@@ -161,16 +174,26 @@ class Summarizer:
                 self.out.append(p)
                 return
             if isinstance(s, ast.If):
+                ctext, cpol = light_canon(s.test)
                 a = p.clone()
-                a.conds.append((norm_src(s.test), True))
+                a.conds.append((ctext, cpol))
                 b = p.clone()
-                b.conds.append((norm_src(s.test), False))
+                b.conds.append((ctext, not cpol))
                 self._block(list(s.body) + list(stmts), a)
                 self._block(list(s.orelse) + list(stmts), b)
                 return
             if isinstance(s, ast.Pass):
                 continue
             if isinstance(s, ast.For):
+                acc = self.acc_loop(s, p, 0)
+                if acc is not None:
+                    key, total = acc
+                    if key.startswith("self."):
+                        a = key[5:]
+                        self._store(p, a, p.stores.get(a, self.pre(a)) + total)
+                    else:
+                        p.locals[key] = p.locals.get(key, self.T.sym(key)) + total
+                    continue
                 from . import idioms as ID
                 red = ID.reduction_of(s)
                 if red is not None and red[0] in p.locals:
@@ -199,6 +222,54 @@ class Summarizer:
                 raise HasLoop("loop in %s" % norm_src(s)[:60])
             raise Untranslatable("statement %s" % type(s).__name__)
         self.out.append(p)
+
+    def acc_loop(self, loop, p, depth):
+        """`for v in range(a, b): acc += e(v)` (e may itself be such a loop over an inner variable, temporaries allowed):
+        returns (accumulator key, Sum(e, (v, a, b - 1))) with canonical summation variables SUMVAR<depth>, else None."""
+        if not (isinstance(loop, ast.For) and isinstance(loop.target, ast.Name) and not loop.orelse and isinstance(loop.iter, ast.Call) and
+                norm_src(loop.iter.func) == "range" and len(loop.iter.args) in (1, 2) and not loop.iter.keywords):
+            return None
+        try:
+            lo = self.tr(loop.iter.args[0], p) if len(loop.iter.args) == 2 else sp.Integer(0)
+            hi = self.tr(loop.iter.args[-1], p)
+        except Untranslatable:
+            return None
+        v = sp.Symbol("SUMVAR%d" % depth, integer=True, positive=True)
+        q = p.clone()
+        q.locals[loop.target.id] = v
+        tgt, total = None, None
+        for s in loop.body:
+            key = inc = None
+            if isinstance(s, ast.Expr) and isinstance(s.value, ast.Constant):
+                continue
+            if isinstance(s, ast.Assign) and len(s.targets) == 1 and isinstance(s.targets[0], ast.Name) and s.targets[0].id != tgt:
+                try:
+                    q.locals[s.targets[0].id] = self.tr(s.value, q)
+                except Untranslatable:
+                    return None
+                continue
+            if isinstance(s, ast.AugAssign) and isinstance(s.op, ast.Add) and (isinstance(s.target, ast.Name) or is_self_attr(s.target)):
+                key = norm_src(s.target)
+                try:
+                    inc = self.tr(s.value, q)
+                except Untranslatable:
+                    return None
+            elif isinstance(s, ast.For):
+                r = self.acc_loop(s, q, depth + 1)
+                if r is None:
+                    return None
+                key, inc = r
+            else:
+                return None
+            if tgt is not None and key != tgt:
+                return None
+            if inc.has(self.T.sym(key[5:]) if key.startswith("self.") else sp.Symbol(key)):
+                return None
+            tgt = key
+            total = inc if total is None else total + inc
+        if total is None:
+            return None
+        return tgt, sp.Sum(total, (v, lo, hi - 1))
 
     def _store(self, p, attr, val):
         if attr not in p.stores:
